@@ -90,10 +90,10 @@ class FuncInfo:
 
     @property
     def lineno(self):
-        return self.node.lineno
+        return true_line(self.node.lineno)
 
     def site(self, node=None):
-        ln = getattr(node, 'lineno', self.node.lineno)
+        ln = true_line(getattr(node, 'lineno', self.node.lineno))
         return '%s:%d:%s' % (self.file, ln, self.qualname)
 
     def value_params(self):
@@ -153,6 +153,48 @@ class Model:
         self.generated = []     # FuncInfo of template-generated dispatchers
         self._load()
 
+    def _canonicalise_out_params(self):
+        """Private kernels name their designated output parameter `out`, and the rules know it by that name.  When a private
+        function of the reference tree has renamed the parameter at the frozen position of `out` (verif/known_out_positions.json),
+        the new name is mapped back to `out` - in the function and at keyword call sites - so that the analyses read the same
+        program as before the renaming."""
+        import json
+        pth = os.path.join(os.path.dirname(os.path.abspath(__file__)), 'known_out_positions.json')
+        try:
+            known = json.load(open(pth))
+        except Exception:
+            return
+        renamed = {}        # function name -> new parameter name
+        for fi in self.all_functions():
+            idx = known.get(fi.qualname)
+            vp = fi.value_params()
+            if idx is None or 'out' in fi.params or idx >= len(vp):
+                continue
+            new = vp[idx]
+            uses_out = any(isinstance(n, ast.Name) and n.id == 'out' for n in ast.walk(fi.node))
+            if uses_out:
+                continue
+            for n in ast.walk(fi.node):
+                if isinstance(n, ast.Name) and n.id == new:
+                    n.id = 'out'
+                elif isinstance(n, ast.arg) and n.arg == new:
+                    n.arg = 'out'
+            fi.params = ['out' if p_ == new else p_ for p_ in fi.params]
+            fi.kwonly = ['out' if p_ == new else p_ for p_ in fi.kwonly]
+            if new in fi.defaults:
+                fi.defaults['out'] = fi.defaults.pop(new)
+            renamed[fi.name] = new
+        if not renamed:
+            return
+        for fi in self.all_functions():
+            for c in ast.walk(fi.node):
+                if isinstance(c, ast.Call):
+                    nm = c.func.attr if isinstance(c.func, ast.Attribute) else (c.func.id if isinstance(c.func, ast.Name) else None)
+                    if nm in renamed:
+                        for k in c.keywords:
+                            if k.arg == renamed[nm]:
+                                k.arg = 'out'
+
     # --------------------------------------------------------------- inlining
     def _inline_recording_helpers(self, mi, known=None):
         """Methods of the tracer classes may delegate part of their work to a private helper of the same class
@@ -175,7 +217,8 @@ class Model:
                     body = body[1:]
                 if not body:
                     continue
-                if any(isinstance(n, (ast.Yield, ast.YieldFrom, ast.FunctionDef, ast.Lambda, ast.Global, ast.Nonlocal)) for b in body for n in ast.walk(b)):
+                body = _normal_body(body)
+                if any(isinstance(n, (ast.Yield, ast.YieldFrom, ast.FunctionDef, ast.Lambda, ast.Global, ast.Nonlocal, ast.While)) for b in body for n in ast.walk(b)):
                     continue
                 # no (mutual) recursion
                 if any(isinstance(c, ast.Call) and isinstance(c.func, ast.Attribute) and c.func.attr == name for b in body for c in ast.walk(b)):
@@ -193,6 +236,7 @@ class Model:
                     new = _inline_calls(fi, ci.name, helpers, used)
                     if new is not None:
                         fi.node = new
+                        fi.expanded = True
                         changed = True
                         if fi.name in helpers:
                             h, _, straight, records = helpers[fi.name]
@@ -216,26 +260,45 @@ class Model:
 
     def _inline_module_helpers(self, mi, known=None):
         """the same expansion for the dispatcher modules: a public dispatcher that hands its work to a private
-        module-level helper (`return _dispatch('erf', x, (x,), scipy.special)`) is read with the helper expanded"""
+        module-level helper (`return _dispatch('erf', x, (x,), scipy.special)`) is read with the helper expanded;
+        the helper may be imported from another module in scope (`from algopy.globalfuncs import _dispatch`)"""
         helpers = {}
-        frozen = set((known or {}).get(mi.name, ()))
-        for name, h in mi.functions.items():
+
+        def qualify(local, h, frozen):
+            name = h.name
             if not name.startswith('_') or name.startswith('__') or h.vararg or h.kwarg or h.generated:
-                continue
+                return
             if name in frozen:
-                continue
+                return
             body = list(h.node.body)
             if body and isinstance(body[0], ast.Expr) and isinstance(body[0].value, ast.Constant) and isinstance(body[0].value.value, str):
                 body = body[1:]
             if not body:
-                continue
-            if any(isinstance(n, (ast.Yield, ast.YieldFrom, ast.FunctionDef, ast.Lambda, ast.Global, ast.Nonlocal)) for b in body for n in ast.walk(b)):
-                continue
+                return
+            body = _normal_body(body)
+            if any(isinstance(n, (ast.Yield, ast.YieldFrom, ast.FunctionDef, ast.Lambda, ast.Global, ast.Nonlocal, ast.While)) for b in body for n in ast.walk(b)):
+                return
             if any(isinstance(c, ast.Call) and isinstance(c.func, ast.Name) and c.func.id == name for b in body for c in ast.walk(b)):
-                continue
+                return
             head = body[:-1] if isinstance(body[-1], ast.Return) else body
             straight = all(isinstance(b, (ast.Assign, ast.AugAssign, ast.Expr)) for b in head)
-            helpers[name] = (h, body, straight, False)
+            helpers[local] = (h, body, straight, False)
+
+        for name, h in mi.functions.items():
+            qualify(name, h, set((known or {}).get(mi.name, ())))
+        for local, tgt in mi.imports.items():
+            if ':' in tgt and local not in mi.functions:
+                mod, nm = tgt.split(':', 1)
+                other = self.modules.get(mod)
+                if other is not None and other is not mi and nm.startswith('_') and (nm in other.functions or nm in getattr(other, 'expanded_helpers', {})):
+                    # the helper's own free names must mean the same here: only helpers that use nothing but their parameters,
+                    # builtins and attribute access on them
+                    h = other.functions.get(nm) or other.expanded_helpers[nm]
+                    free = {n.id for n in ast.walk(h.node) if isinstance(n, ast.Name) and isinstance(n.ctx, ast.Load)} \
+                        - set(h.params) - {n.id for n in ast.walk(h.node) if isinstance(n, ast.Name) and isinstance(n.ctx, ast.Store)}
+                    import builtins
+                    if all(hasattr(builtins, f_) or mi.imports.get(f_) == other.imports.get(f_) is not None for f_ in free):
+                        qualify(local, h, set((known or {}).get(mod, ())))
         if not helpers:
             return
         used = set()
@@ -243,17 +306,20 @@ class Model:
         for ci in mi.classes.values():
             callers.extend(ci.all_defs)
         for fi in callers:
-            if (fi.cls is None and fi.name in helpers) or fi.generated:
+            if fi.cls is None and fi.name in helpers and helpers[fi.name][0] is fi:
                 continue
             new = _inline_calls(fi, None, helpers, used)
             if new is not None:
                 fi.node = new
+                fi.expanded = True
         self.inlined.extend(sorted(used))
         for name in used:
             still = any(isinstance(c, ast.Call) and isinstance(c.func, ast.Name) and c.func.id == name
                         for fi in callers if not (fi.cls is None and fi.name == name) for c in ast.walk(fi.node))
-            if not still:
-                mi.functions.pop(name, None)
+            if not still and name in mi.functions and helpers[name][0] is mi.functions[name]:
+                if not hasattr(mi, 'expanded_helpers'):
+                    mi.expanded_helpers = {}
+                mi.expanded_helpers[name] = mi.functions.pop(name)
 
     # ------------------------------------------------------------------ load
     def _load(self):
@@ -272,6 +338,7 @@ class Model:
             except SyntaxError as e:
                 raise AnalysisError('E0.parse', rel, 'syntax error: %s' % e)
             _canonicalise_imports(tree)
+            _canonicalise_flags(tree)
             mi = ModuleInfo(modname, rel, tree, src)
             self.modules[modname] = mi
             self.files_parsed.append(rel)
@@ -279,12 +346,20 @@ class Model:
         for mi in list(self.modules.values()):
             self._expand_templates(mi)
         self.inlined = []       # (caller FuncInfo, helper FuncInfo) pairs, see _inline_recording_helpers
+        self._canonicalise_out_params()
         known = _known_private()
         for mn, mi in self.modules.items():
             # private helpers that exist on the reference tree are part of its architecture (kernels, pullbacks: analysed as
             # units); a private helper that is *new* is read as part of its callers
             self._inline_recording_helpers(mi, known)
             self._inline_module_helpers(mi, known)
+        for mi in self.modules.values():
+            fis = list(mi.functions.values())
+            for ci in mi.classes.values():
+                fis.extend(ci.all_defs)
+            for fi in fis:
+                if getattr(fi, 'expanded', False):
+                    _renumber(fi.node)
 
     def _resolve_relative(self, mi, level, module):
         if level == 0:
@@ -664,6 +739,9 @@ def seq_iteration(for_stmt):
         elif _call_of(it, 'list', 1) or _call_of(it, 'tuple', 1):
             it = it.args[0]
             continue
+        elif not enum and (_call_of(it, 'enumerate', 1) or _call_of(it, 'enumerate', 2)):
+            enum, it = True, it.args[0]          # reversed(list(enumerate(S)))
+            continue
         else:
             break
         direction = 'rev' if direction == 'fwd' else 'fwd'
@@ -767,6 +845,142 @@ def _canonicalise_imports(tree):
     tree.body[0:0] = extra
 
 
+def _is_kind_test(e, stable):
+    """a side-effect free test of the kind of a never-reassigned name: isinstance(x, T) / numpy.isscalar(x) / hasattr(x, 'a') /
+    x is None, and their and/or/not combinations"""
+    if isinstance(e, ast.BoolOp):
+        return all(_is_kind_test(v, stable) for v in e.values)
+    if isinstance(e, ast.UnaryOp) and isinstance(e.op, ast.Not):
+        return _is_kind_test(e.operand, stable)
+    if isinstance(e, ast.Call) and not e.keywords and e.args and isinstance(e.args[0], ast.Name) and e.args[0].id in stable:
+        d = dotted_name(e.func)
+        if d in ('isinstance', 'hasattr') and len(e.args) == 2:
+            return all(isinstance(n, (ast.Name, ast.Attribute, ast.Tuple, ast.Constant, ast.Load)) for n in ast.walk(e.args[1]))
+        if d in ('numpy.isscalar',) and len(e.args) == 1:
+            return True
+    if isinstance(e, ast.Compare) and len(e.ops) == 1 and isinstance(e.ops[0], (ast.Is, ast.IsNot)) and isinstance(e.left, ast.Name) \
+            and e.left.id in stable and isinstance(e.comparators[0], ast.Constant) and e.comparators[0].value is None:
+        return True
+    return False
+
+
+def _canonicalise_flags(tree):
+    """`x_is_utpm = isinstance(x, UTPM)` ... `if x_is_utpm and y_is_utpm:` reads like the test written out: a local that
+    is assigned once, at the top level of the function, from a kind test of names that are never reassigned is replaced
+    by that test"""
+    for f in ast.walk(tree):
+        if not isinstance(f, ast.FunctionDef):
+            continue
+        stores = {}
+        for n in ast.walk(f):
+            if isinstance(n, ast.Name) and isinstance(n.ctx, (ast.Store, ast.Del)):
+                stores[n.id] = stores.get(n.id, 0) + 1
+        a = f.args
+        params = {x.arg for x in a.posonlyargs + a.args + a.kwonlyargs}
+        stable = {p_ for p_ in params if p_ not in stores}
+        flags = {}
+        for st in f.body:
+            if isinstance(st, ast.Assign) and len(st.targets) == 1 and isinstance(st.targets[0], ast.Name) \
+                    and stores.get(st.targets[0].id) == 1 and st.targets[0].id not in params and _is_kind_test(st.value, stable):
+                flags[st.targets[0].id] = st
+        if not flags:
+            continue
+        nested = {n.id for g in ast.walk(f) if isinstance(g, (ast.FunctionDef, ast.Lambda)) and g is not f
+                  for n in ast.walk(g) if isinstance(n, ast.Name)}
+        flags = {k: v for k, v in flags.items() if k not in nested}
+
+        class T(ast.NodeTransformer):
+            def visit_Name(self, n):
+                if isinstance(n.ctx, ast.Load) and n.id in flags:
+                    return ast.copy_location(copy.deepcopy(flags[n.id].value), n)
+                return n
+        keep = set(id(v) for v in flags.values())
+        new_body = []
+        for st in f.body:
+            if id(st) in keep:
+                continue
+            new_body.append(T().visit(st))
+        if new_body:
+            f.body = new_body
+
+
+LINE_SCALE = 100000
+
+
+def true_line(ln):
+    """line number for reports: lines of functions with expanded helper calls are scaled by LINE_SCALE (see _renumber)"""
+    return ln // LINE_SCALE if isinstance(ln, int) and ln >= LINE_SCALE else ln
+
+
+def _renumber(fnode):
+    """After helper calls have been expanded in place, several statements share the line of the call site.  Rules that
+    order statements by position (`a.lineno < b.lineno`) need a strictly monotone numbering: every line is scaled by
+    LINE_SCALE and statements are pushed behind their predecessor where necessary.  true_line() undoes it for reports."""
+    S = LINE_SCALE
+    last = [0]
+
+    def own_nodes(st):
+        out, stack = [], [st]
+        while stack:
+            n = stack.pop()
+            out.append(n)
+            for ch in ast.iter_child_nodes(n):
+                if isinstance(ch, (ast.stmt, ast.ExceptHandler)) or type(ch).__name__ == 'match_case':
+                    continue
+                stack.append(ch)
+        return out
+
+    def do(st):
+        if getattr(st, '_rn', False):
+            return
+        want = getattr(st, 'lineno', 0) * S
+        new = max(want, last[0] + 1)
+        shift = new - want
+        mx = new
+        for n in own_nodes(st):
+            if hasattr(n, 'lineno') and n.lineno is not None and not getattr(n, '_rn', False):
+                n._rn = True
+                n.lineno = n.lineno * S + shift
+                mx = max(mx, n.lineno)
+                if getattr(n, 'end_lineno', None) is not None:
+                    n.end_lineno = max(n.lineno, n.end_lineno * S + shift)
+        last[0] = mx
+        for _, val in ast.iter_fields(st):
+            if isinstance(val, list):
+                for ch in val:
+                    if isinstance(ch, (ast.stmt, ast.ExceptHandler)) or type(ch).__name__ == 'match_case':
+                        do(ch)
+        if hasattr(st, 'lineno'):
+            st.end_lineno = max(last[0], st.lineno)
+
+    do(fnode)
+
+
+def _as_expression(body):
+    """a body made of guards and returns only (`if c: return a` / `return b`) is the conditional expression `a if c else b`"""
+    if not body:
+        return None
+    st = body[0]
+    if isinstance(st, ast.Return):
+        return st.value if st.value is not None else ast.Constant(value=None)
+    if isinstance(st, ast.If):
+        rest = body[1:]
+        e1 = _as_expression(list(st.body) + ([] if _terminates(st.body) else rest))
+        e2 = _as_expression(list(st.orelse) + ([] if _terminates(st.orelse) else rest))
+        if e1 is None or e2 is None:
+            return None
+        return ast.copy_location(ast.IfExp(test=st.test, body=e1, orelse=e2), st)
+    return None
+
+
+def _normal_body(body):
+    if len(body) > 1:
+        e = _as_expression(body)
+        if e is not None:
+            return [ast.copy_location(ast.Return(value=e), body[0])]
+    return body
+
+
 def _terminates(body):
     """every path through the statement list ends in return/raise"""
     if not body:
@@ -823,14 +1037,17 @@ def _inline_calls(fi, clsname, helpers, used):
                     and val.func.value.id in ('self', 'cls', clsname) and val.func.attr in helpers and val.func.attr != fi.name):
                 return None
             hname, recv_expr = val.func.attr, val.func.value.id
-        if isinstance(st, ast.Assign) and not (len(st.targets) == 1 and isinstance(st.targets[0], ast.Name)):
+        if isinstance(st, ast.Assign) and len(st.targets) != 1:
             return None
         h, body, straight, _ = helpers[hname]
         tail = isinstance(st, ast.Return)
         no_value = not any(isinstance(n, ast.Return) and n.value is not None for b in body for n in ast.walk(b))
         early_ret = any(isinstance(n, ast.Return) for b in body[:-1] for n in ast.walk(b))
         splice = isinstance(st, ast.Expr) and no_value and not early_ret       # procedure call: splice the whole body in
-        if not straight and not tail and not splice:
+        # a body whose only return is its last statement can stand in for the call wherever the call is a whole statement
+        single_exit = not early_ret and isinstance(body[-1], ast.Return) and not any(
+            isinstance(n, ast.Return) for b in body[:-1] for n in ast.walk(b))
+        if not straight and not tail and not splice and not single_exit:
             return None
         params = list(h.params)
         recv = None
@@ -870,7 +1087,7 @@ def _inline_calls(fi, clsname, helpers, used):
                 mapping[loc] = loc + suffix
         sub = _Subst(mapping)
         out = list(pre)
-        if straight:
+        if straight or (single_exit and not tail) or (single_exit and tail):
             has_ret = isinstance(body[-1], ast.Return)
             for b in (body[:-1] if has_ret else body):
                 out.append(sub.visit(copy.deepcopy(b)))
@@ -902,6 +1119,47 @@ def _inline_calls(fi, clsname, helpers, used):
         changed[0] = True
         return out
 
+    hoist_n = [0]
+
+    def hoist(st):
+        """`f(.., cls._h(a), ..)`: the helper call is evaluated into a fresh local right before the statement"""
+        if not isinstance(st, (ast.Assign, ast.AugAssign, ast.Expr, ast.Return)):
+            return None
+        top = None if isinstance(st, ast.AugAssign) else st.value
+        pre = []
+        for c in [n for n in ast.walk(st) if isinstance(n, ast.Call) and n is not top]:
+            if clsname is None:
+                ok = isinstance(c.func, ast.Name) and c.func.id in helpers and c.func.id != fi.name
+                hname = c.func.id if ok else None
+            else:
+                ok = isinstance(c.func, ast.Attribute) and isinstance(c.func.value, ast.Name) and c.func.value.id in ('self', 'cls', clsname) \
+                    and c.func.attr in helpers and c.func.attr != fi.name
+                hname = c.func.attr if ok else None
+            if not ok:
+                continue
+            h, body_, straight_, _ = helpers[hname]
+            if len(body_) == 1 and isinstance(body_[0], ast.Return):
+                continue            # expression-level expansion takes care of it
+            if not isinstance(body_[-1], ast.Return) or any(isinstance(n, ast.Return) for b in body_[:-1] for n in ast.walk(b)):
+                continue
+            hoist_n[0] += 1
+            tmp = '_inl%d_%s' % (hoist_n[0], h.name.strip('_'))
+            fake = ast.copy_location(ast.Assign(targets=[ast.Name(id=tmp, ctx=ast.Store())], value=c), st)
+            ex = expand(fake)
+            if ex is None:
+                continue
+            pre.extend(ex)
+            # replace the call node in place by the temporary
+            for parent in ast.walk(st):
+                for field, val in ast.iter_fields(parent):
+                    if val is c:
+                        setattr(parent, field, ast.copy_location(ast.Name(id=tmp, ctx=ast.Load()), c))
+                    elif isinstance(val, list):
+                        for i_, v_ in enumerate(val):
+                            if v_ is c:
+                                val[i_] = ast.copy_location(ast.Name(id=tmp, ctx=ast.Load()), c)
+        return pre or None
+
     def rec(body):
         new = []
         for st in body:
@@ -909,6 +1167,9 @@ def _inline_calls(fi, clsname, helpers, used):
             if ex is not None:
                 new.extend(ex)
                 continue
+            pre = hoist(st)
+            if pre:
+                new.extend(pre)
             for attr in ('body', 'orelse', 'finalbody'):
                 sub = getattr(st, attr, None)
                 if isinstance(sub, list) and sub and isinstance(sub[0], ast.stmt) and not isinstance(st, (ast.FunctionDef, ast.ClassDef)):
